@@ -322,16 +322,42 @@ def sig_is_prefix(sig):
     return names == ['x', 'y', 'z'][:len(names)]
 
 
-def make_callable(sig, log):
-    """Instrumented Python function with exactly this signature; call i returns 100+i."""
+def _shared_decorator(f):
+    """ONE decorator for every 'wrapped' callable of the process: all results share the code object of `inner`, their
+    signatures (followed through __wrapped__) differ."""
+    import functools
+
+    @functools.wraps(f)
+    def inner(*args, **kwargs):
+        return f(*args, **kwargs)
+    return inner
+
+
+KINDS = ('def', 'wrapped', 'method', 'instance', 'partial')
+
+
+def make_callable(sig, log, kind='def'):
+    """Instrumented Python callable with exactly this signature; call i returns 100+i.
+    kind: plain function | function behind the shared functools.wraps decorator | bound method | object with __call__ |
+    functools.partial that fixes a keyword-only extra parameter."""
     names = [n for n, _ in sig]
-    src = 'def fn(%s):\n    _log.append((%s, (%s)))\n    return 100 + len(_log) - 1\n' % (
-        ', '.join(n if d is None else '%s=%d' % (n, d) for n, d in sig),
-        'klong' if 'klong' in names else 'None',
-        ''.join(n + ', ' for n in names if n != 'klong'))
+    params = ', '.join(n if d is None else '%s=%d' % (n, d) for n, d in sig)
+    body = '    _log.append((%s, (%s)))\n    return 100 + len(_log) - 1\n' % (
+        'klong' if 'klong' in names else 'None', ''.join(n + ', ' for n in names if n != 'klong'))
     ns = {'_log': log}
-    exec(src, ns)
-    return ns['fn']
+    if kind in ('def', 'wrapped'):
+        exec('def fn(%s):\n%s' % (params, body), ns)
+        return _shared_decorator(ns['fn']) if kind == 'wrapped' else ns['fn']
+    if kind == 'partial':
+        import functools
+        exec('def fn(%s):\n%s' % (params + (', ' if params else '') + '*, _extra', body), ns)
+        return functools.partial(ns['fn'], _extra=1)
+    ind = body.replace('    ', '        ')
+    if kind == 'method':
+        exec('class C:\n    def fn(%s):\n%s' % (', '.join(['self'] + ([params] if params else [])), ind), ns)
+        return ns['C']().fn
+    exec('class C:\n    def __call__(%s):\n%s' % (', '.join(['self'] + ([params] if params else [])), ind), ns)
+    return ns['C']()
 
 
 def callable_src(sig):
@@ -416,6 +442,11 @@ def b_cases(quick):
         for prior, _ in B_PRIORS[1:]:
             cases.append(('b', si, 'direct', fixed, prior))
             cases.append(('b', si, 'pyget', fixed, prior))
+        # other kinds of Python callable with the same signature (the statement says "a Python callable", not "a function")
+        for kind in KINDS[1:]:
+            for form in ('direct', 'pyget') + (('each',) if n == 1 else ('over2',) if n == 2 else ()):
+                k = b_form_arg_count(form, n)
+                cases.append(('b', si, form, (I(1), R(2.5), S('s'))[:k], 'fresh:' + kind))
     return sigs, cases
 
 
@@ -442,11 +473,14 @@ def b_run_case(case, sigs):
     out = new_part()
     text, pyargs, want_calls, want_res = b_expect(form, n, A)
     kl = KlongInterpreter()
+    kind = 'def'
+    if prior.startswith('fresh:'):
+        prior, kind = 'fresh', prior[6:]
     stmt = dict(B_PRIORS)[prior]
     if stmt:
         exec(stmt, {'klong': kl})
     log = []
-    fn = make_callable(sig, log)
+    fn = make_callable(sig, log, kind)
     kl['f'] = fn
     if text is not None:
         got = outcome(lambda: kl(text))
@@ -480,8 +514,10 @@ def b_run_case(case, sigs):
         call = 'klong(%r)' % text if text is not None else how
         snippet = SNIP_HEAD + pre + callable_src(sig) + "klong['f'] = fn\ntry:\n    print(repr(%s))\nfinally:\n    print(log)\n" % call
         add_v(out, dict(
-            key='b: prior=%s ; %s ; %s' % (prior, sig_text(sig), how), observed=obs, expected=exp,
-            case={'part': 'b', 'sig': [list(p) for p in sig], 'form': form, 'args': A, 'prior': prior},
+            key='b: prior=%s ; %s%s ; %s' % (prior, sig_text(sig), '' if kind == 'def' else ' [%s]' % kind, how),
+            observed=obs, expected=exp,
+            case={'part': 'b', 'sig': [list(p) for p in sig], 'form': form, 'args': A,
+                  'prior': prior if kind == 'def' else 'fresh:' + kind},
             snippet=snippet, group=grp))
     if si % 7 == 3 and form in ('direct', 'over', 'proj:1') and all(a == S('s') for a in A) and prior == 'fresh':
         out['samples'].append(['b', sig_text(sig), how, obs])
